@@ -321,6 +321,9 @@ def replay_history(ctx: Ctx, hist: List[Dict[str, Any]], kind: str, seed: int) -
             ctx.skip("re-striking the derivative a Black-Scholes / Whalley-Wilmott model was built from (the model keeps the strike of its construction): rest of the interleaving not judged")
             return
         pbefore = w.pversions()
+        # what the caller may still hold: the tensor OBJECTS that are registered now.  A new simulation replaces the instrument's
+        # buffers (Market.tla: SimulateReplacesAll); it never writes into the series it replaces
+        held = [(pn, name, b, b.detach().clone()) for pn, prim in w.prim.items() for name, b in prim.named_buffers()]
         try:
             res = w.run(op, h, d, n)
         except NoParameters:
@@ -329,6 +332,11 @@ def replay_history(ctx: Ctx, hist: List[Dict[str, Any]], kind: str, seed: int) -
         after = w.versions()
         pafter = w.pversions()
         ctx.count(n=1)
+        for pn, name, obj, copy_ in held:
+            if obj.shape != copy_.shape or not torch.equal(obj.detach().nan_to_num(), copy_.nan_to_num()):
+                ctx.violation(f"held-series:{op}", f"{op} wrote into a series tensor the caller obtained earlier ({pn}.{name}): a simulation replaces an instrument's series, "
+                              "the replaced tensor keeps its values", {**detail, "primary": pn, "buffer": name})
+                return
         if op == "AddClause" and after != before:
             ctx.violation("purity:AddClause", "add_clause changed a simulated buffer", detail)
             return
@@ -606,6 +614,113 @@ def reconfigured_objects(ctx: Ctx) -> None:
                 break
 
 
+def shared_series(ctx: Ctx) -> None:
+    """One tensor supplied by the caller and registered as the series of TWO instruments (the same scenarios under two cost levels),
+    or one instrument's series registered in another: whatever re-simulates one of them (simulate, price, compute_loss, fit - with
+    the same number of paths and steps as the shared series) leaves the caller's tensor and the other instrument's series alone,
+    and the other derivative's hedge and P&L stay what they were."""
+    from pfhedge.instruments import BrownianStock, EuropeanOption, HestonStock
+    from pfhedge.nn import BlackScholes, Hedger
+    dt = torch.float64
+    N, T = 4, 5
+    for pk in ("brownian", "heston"):
+        for how in ("caller-tensor", "cross-registered"):
+            for op in ("simulate", "price", "compute_loss", "fit"):
+                torch.manual_seed(11)
+                mk = (lambda c: BrownianStock(cost=c, dt=0.25, dtype=dt)) if pk == "brownian" else (lambda c: HestonStock(cost=c, dt=0.25, dtype=dt))
+                a, b = mk(0.0), mk(1e-3)
+                scen = (torch.randn(N, T, dtype=dt) * 0.05).cumsum(-1).exp()
+                var = torch.full((N, T), 0.04, dtype=dt)
+                if how == "caller-tensor":
+                    for st in (a, b):
+                        st.register_buffer("spot", scen)
+                        if pk == "heston":
+                            st.register_buffer("variance", var)
+                else:
+                    a.register_buffer("spot", scen.clone())
+                    if pk == "heston":
+                        a.register_buffer("variance", var.clone())
+                    for name, buf in list(a.named_buffers()):
+                        b.register_buffer(name, buf)
+                da, db = EuropeanOption(a, maturity=1.0), EuropeanOption(b, maturity=1.0)
+                held = {f"{nm} of the other instrument": (t_, t_.clone()) for nm, t_ in b.named_buffers()}
+                held["the caller's tensor"] = (scen, scen.clone())
+                m = BlackScholes(db)
+                pl_before = Hedger(m, m.inputs()).compute_pl(db)
+                net = torch.nn.Linear(2, 1, dtype=dt)
+                h = Hedger(net, ["log_moneyness", "time_to_maturity"])
+                try:
+                    if op == "simulate":
+                        da.simulate(n_paths=N)
+                    elif op == "price":
+                        h.price(da, n_paths=N)
+                    elif op == "compute_loss":
+                        h.compute_loss(da, n_paths=N)
+                    else:
+                        h.fit(da, n_paths=N, n_epochs=1, verbose=False, validation=False)
+                except Exception as e:
+                    ctx.violation("shared-series:raises", f"{op} on an instrument whose series tensor is shared raised {type(e).__name__}", {"error": repr(e)[:200]})
+                    continue
+                ctx.count(("shared-series", pk, how, op), n=1)
+                if tuple(a.spot.shape) != (N, T):
+                    raise MachineryError("shared_series: the re-simulation does not have the shape of the shared series")
+                for what, (obj, was) in held.items():
+                    if not torch.equal(obj, was):
+                        ctx.violation(f"shared-series:{op}", f"{op} of a derivative on one instrument modified {what} ({pk}, {how})", {"primary": pk, "sharing": how, "op": op, "what": what})
+                        break
+                else:
+                    if not torch.equal(Hedger(m, m.inputs()).compute_pl(db), pl_before):
+                        ctx.violation(f"shared-series:{op}:pl", f"the P&L of the derivative on the OTHER instrument changed after {op} of the first ({pk}, {how})", {"primary": pk, "sharing": how, "op": op})
+
+
+def models_of_another_dtype(ctx: Ctx) -> None:
+    """A model whose parameters have another dtype than the simulated series (float32 weights on float64 scenarios and the reverse;
+    type promotion makes such a user module applicable): computing its hedge / portfolio / P&L - or failing to, for a library
+    network that rejects the mix - leaves the series of the derivative as they are, dtype included, and the result of another
+    hedger on the same derivative is what it was."""
+    from pfhedge.instruments import BrownianStock, EuropeanOption, HestonStock, LookbackOption
+    from pfhedge.nn import BlackScholes, Hedger, MultiLayerPerceptron
+
+    class LinearDelta(torch.nn.Module):
+        def __init__(self, dtype):
+            super().__init__()
+            self.weight = torch.nn.Parameter(torch.tensor([0.5, -0.125], dtype=dtype))
+
+        def forward(self, x):
+            return (x * self.weight).sum(-1, keepdim=True)
+
+    for sdt, mdt in ((torch.float64, torch.float32), (torch.float32, torch.float64)):
+        for mk in ("brownian", "heston"):
+            torch.manual_seed(5)
+            ul = BrownianStock(cost=1e-4, dt=0.25, dtype=sdt) if mk == "brownian" else HestonStock(cost=1e-4, dt=0.25, dtype=sdt)
+            d = (EuropeanOption if mk == "brownian" else LookbackOption)(ul, maturity=1.0)
+            d.simulate(n_paths=4)
+            was = {k: (b, b.clone()) for k, b in ul.named_buffers()}
+            bs = BlackScholes(d)
+            pl0 = Hedger(bs, bs.inputs()).compute_pl(d)
+            for label, model, inputs in (("user module", LinearDelta(mdt), ["log_moneyness", "time_to_maturity"]),
+                                         ("user module with prev_hedge", LinearDelta(mdt), ["log_moneyness", "prev_hedge"]),
+                                         ("MultiLayerPerceptron", MultiLayerPerceptron(in_features=2).to(mdt), ["log_moneyness", "time_to_maturity"])):
+                hd = Hedger(model, inputs)
+                for op in ("compute_hedge", "compute_portfolio", "compute_pl"):
+                    try:
+                        with torch.no_grad():
+                            getattr(hd, op)(d)
+                    except RuntimeError:
+                        ctx.skip("a model that rejects inputs of another dtype than its parameters (no result; the series are still judged)")
+                    ctx.count(("model-dtype", str(sdt), str(mdt), mk, label, op), n=1)
+                    now = dict(ul.named_buffers())
+                    bad = [k for k, (obj, val) in was.items() if k not in now or now[k].dtype != sdt or now[k].shape != val.shape or not torch.equal(now[k], val) or not torch.equal(obj, val)]
+                    if bad or d.dtype != sdt:
+                        ctx.violation(f"purity:{op}:model-of-another-dtype", f"{op} with a {label} whose parameters are {mdt} changed the {sdt} series of the derivative "
+                                      f"({', '.join(bad) or 'dtype'}; now {d.dtype})", {"series": str(sdt), "model": str(mdt), "underlier": mk, "model_kind": label})
+                        break
+            pl1 = Hedger(bs, bs.inputs()).compute_pl(d)
+            if pl1.dtype != pl0.dtype or not torch.equal(pl1, pl0):
+                ctx.violation("history:compute_pl:model-of-another-dtype", "the Black-Scholes P&L of a derivative changed after hedgers with models of another dtype were evaluated on it",
+                              {"series": str(sdt), "model": str(mdt), "underlier": mk})
+
+
 def bound_handles(ctx: Ctx) -> None:
     """handles = [f.of(d) for d in book] from ONE feature object: every handle keeps reading the derivative it was bound to,
     whatever the feature object is bound to afterwards (derivatives of different shapes and dtypes)."""
@@ -763,6 +878,8 @@ def check(ctx: Ctx) -> None:
         n += 1
     ctx.sections["interleavings_replayed"] = n
     reconfigured_objects(ctx)
+    shared_series(ctx)
+    models_of_another_dtype(ctx)
     bound_handles(ctx)
     stepping_order(ctx)
     fit_after_backward(ctx)
